@@ -30,6 +30,12 @@ type c21Case struct {
 	// StaleLow: NRx3 is written (5A) before sound is powered off and on again and NOT afterwards; the channel is
 	// started through NRx4 alone: powering off clears the frequency registers, so the frequency is the high bits only
 	StaleLow bool `json:"stale_low,omitempty"`
+	// Env != 0: NRx2 value of the observed channel (1, 2, 4): a volume envelope that keeps stepping while the channel
+	// plays (the run then spans many 64 Hz envelope clocks); the waveform grid does not depend on the volume unit
+	Env uint8 `json:"env,omitempty"`
+	// Event (at machine cycle At): a register write that must not move the observed channel's steps: "nr52on" = NR52
+	// written with 80 / FF while sound is already on; "nr50", "nr51" = master volume / routing rewritten
+	Event string `json:"event,omitempty"`
 }
 
 func c21Setup(ch, f int, silent ...bool) *machine.M {
@@ -38,7 +44,9 @@ func c21Setup(ch, f int, silent ...bool) *machine.M {
 	return m
 }
 
-func c21Program(m *machine.M, ch, f int, silent ...bool) {
+func c21Program(m *machine.M, ch, f int, silent ...bool) { c21ProgramEnv(m, ch, f, silent) }
+
+func c21ProgramEnv(m *machine.M, ch, f int, silent []bool, env ...uint8) {
 	junk := uint8(0)
 	if len(silent) > 1 && silent[1] {
 		junk = 0x38
@@ -49,6 +57,9 @@ func c21Program(m *machine.M, ch, f int, silent ...bool) {
 	vol, lvl := uint8(0xf0), uint8(0x20)
 	if len(silent) > 0 && silent[0] {
 		vol, lvl = 0x08, 0x00
+	}
+	if len(env) > 0 && env[0] != 0 {
+		vol = env[0]
 	}
 	switch ch {
 	case 1:
@@ -104,9 +115,10 @@ func c21Check(l *explore.Local, _ struct{}, c c21Case) *explore.Fail {
 		for i := 0; i < c.Idle; i++ {
 			m.A.EndMachineCycle()
 		}
-		c21Program(m, c.Ch, c.F, c.Silent, c.Junk)
+		c21ProgramEnv(m, c.Ch, c.F, []bool{c.Silent, c.Junk}, c.Env)
 	} else {
-		m = c21Setup(c.Ch, c.F, c.Silent, c.Junk)
+		m = machine.New(machine.ROMOnly(), machine.Opts{})
+		c21ProgramEnv(m, c.Ch, c.F, []bool{c.Silent, c.Junk}, c.Env)
 	}
 	var period int // clock cycles per waveform step
 	name := ""
@@ -149,6 +161,18 @@ func c21Check(l *explore.Local, _ struct{}, c c21Case) *explore.Fail {
 		maxCycles, c.Steps = c.Cycles, 1<<30
 	}
 	for n := 1; n <= maxCycles && steps < c.Steps; n++ {
+		if c.Event != "" && n == c.At {
+			switch c.Event {
+			case "nr52on":
+				m.Map.Write(0xff26, 0x80)
+			case "nr52ff":
+				m.Map.Write(0xff26, 0xff)
+			case "nr50":
+				m.Map.Write(0xff24, 0x31)
+			case "nr51":
+				m.Map.Write(0xff25, 0x5a)
+			}
+		}
 		if c.Other > 0 && n == c.At {
 			w := m.Map.Write
 			switch c.Other {
@@ -417,8 +441,26 @@ func init() {
 			c.R.Rule = "waveform positions are read (hook) after every machine cycle: for channels 1-3 and every enumerated 11-bit frequency f the cumulative number of duty/wave steps after N machine cycles must equal floor((4N+phi)/P) for one phase phi and P = 4(2048-f) (2(2048-f) for channel 3) over 24 steps (and over every step of 0.35 s runs that start 0.9 s and 1.9 s after the sound hardware); for channel 4 and every NR43 value with s <= 13 the LFSR must step every d(r)*2^s clock cycles over 6 steps; when the frequency changes while a channel runs (channel 1 sweep settings; NRx3/NRx4 rewritten without a trigger at 8 offsets within a period) the steps that follow must again be one per 4(2048-f) clock cycles for the new f (current f read through the hook; the period in flight is not judged); at the fastest clock the output bit sequence over 3 periods must have minimal period 32,767 (15-bit) / 127 (7-bit) and be a rotation of the documented LFSR sequence"
 			c.R.Assumptions = []string{"quick: all f with at most 2 bits set or at most 2 bits clear plus neighbours of 0x400 (the thorough tier enumerates all 2,048)", "the phase of each generator after a trigger is a convention (calibrated)"}
 		}
-		explore.Product(c.R, "step-periods", explore.PartOpt{Bound: "24 waveform steps (6 LFSR steps) per configuration", Domain: "channels 1-3 x f; channel 4 x NR43 with s<=13; runs of 0.35 s placed across the first and second whole second of emulated time; while another channel is triggered at 20 offsets (all 12 ordered pairs); the same at volume 0 with the DAC on (5 frequencies; NR43 with s<=6); LFSR sequences"},
+		explore.Product(c.R, "step-periods", explore.PartOpt{Bound: "24 waveform steps (6 LFSR steps) per configuration", Domain: "channels 1-3 x f; channel 4 x NR43 with s<=13; runs of 0.35 s placed across the first and second whole second of emulated time; while another channel is triggered at 20 offsets (all 12 ordered pairs); the same at volume 0 with the DAC on (5 frequencies; NR43 with s<=6); with a volume envelope stepping for 300,000 cycles (5 NRx2 values); with NR52 (80 / FF while on), NR50 or NR51 rewritten at 20 offsets; LFSR sequences"},
 			func(yield func(c21Case) bool) {
+				// a volume envelope stepping while the channel plays: 300,000 machine cycles = 18 envelope clocks
+				for _, env := range []uint8{0xf3, 0xf1, 0x0b, 0xa7, 0x97} {
+					for _, cf := range [][2]int{{1, 0x700}, {1, 0x7f0}, {2, 0x700}, {2, 0x123}, {4, 0x23}, {4, 0x00}} {
+						if !yield(c21Case{Ch: cf[0], F: cf[1], Cycles: 300_000, Env: env}) {
+							return
+						}
+					}
+				}
+				// control-register writes that are not the channel's: NR52 written again while sound is on, NR50, NR51
+				for _, ev := range []string{"nr52on", "nr52ff", "nr50", "nr51"} {
+					for _, cf := range [][2]int{{1, 0x700}, {2, 0x6d6}, {3, 0x700}, {4, 0x23}} {
+						for at := 3; at < 1200; at += 61 {
+							if !yield(c21Case{Ch: cf[0], F: cf[1], Cycles: at + 1500, Event: ev, At: at}) {
+								return
+							}
+						}
+					}
+				}
 				for ch := 1; ch <= 3; ch++ {
 					for f := 0; f < 2048; f++ {
 						if !c.Thorough() {
